@@ -510,3 +510,38 @@ def split_hook_log(path):
         e.pop("th", None)
         sessions[k].append(e)
     return sessions
+
+
+# ------------------------------------------------------------------ findings (which reading of the specs is pinned)
+
+def findings_view(props, verif_dir):
+    """Finding rows for the given properties: the merged file (known_findings.jsonl, or the file named by VERIF_FINDINGS
+    for trial runs) wins; rows of checks/<ID>/findings.jsonl that it does not have yet are added."""
+    path = os.environ.get("VERIF_FINDINGS") or os.path.join(verif_dir, "known_findings.jsonl")
+    rows = []
+    if os.path.exists(path):
+        for line in open(path):
+            line = line.strip()
+            if line and not line.startswith("#"):
+                f = json.loads(line)
+                if f.get("property") in props:
+                    rows.append(f)
+    have = {(f["property"], f["deviation"]) for f in rows}
+    for prop in props:
+        own = os.path.join(verif_dir, "checks", prop, "findings.jsonl")
+        if os.path.exists(own):
+            for line in open(own):
+                if line.strip():
+                    f = json.loads(line)
+                    if (f["property"], f["deviation"]) not in have:
+                        rows.append(f)
+    return rows
+
+
+def open_rows(rows, prop):
+    """deviation name -> row, for the findings of prop that are still open (their deviation stays pinned in the spec)"""
+    return {f["deviation"]: f for f in rows if f.get("property") == prop and f.get("status") == "open"}
+
+
+def tla_set(names):
+    return "{" + ", ".join('"%s"' % n for n in sorted(names)) + "}"
